@@ -8,7 +8,7 @@ Decimal fields are compared by decoded meaning (the grammar admits several
 import struct
 
 from .. import canon, refcodec, refspec
-from ..gen import frames as gf, values as gv
+from ..gen import frames as gf, values as gv, wire
 from ..mon import boundary
 from . import c01, c02, c03, common
 from .common import call
@@ -62,6 +62,13 @@ def cases(shard, rnd):
             c['legacy'] = rnd.random() < 0.4
             yield c
     else:
+        for k in range(shard['n'] // 2):
+            fr = wire.header_frame(rnd, allow_refuse=False,
+                                   continuation=(k % 9 == 0))
+            b = bytearray(fr.data)
+            if k % 3 == 0:           # a peer that writes another class id
+                b[7:9] = struct.pack('>H', rnd.choice([0, 10, 85, 65535]))
+            yield {'kind': 'reencode', 'wire': bytes(b)}
         yield {'kind': 'heartbeat'}
         for ch in gf.CHANNELS:
             yield {'kind': 'body', 'body': b'\xce', 'ch': ch}
@@ -322,6 +329,36 @@ def _run(case, rec, kind, legacy, body, commands, encode, header, heartbeat):
         for t in refcodec.dec_table_bytes(
                 ref if framed == 'table' else rw)[2].tags:
             rec.seen('tags', t.decode('latin1'))
+    elif kind == 'reencode':
+        # a content header decoded from the wire and sent on again
+        u = common.lib_unmarshal(case['wire'])
+        if not u.ok or boundary.kind_of(u.value[2]) != 'header':
+            rec.count('lib_refused')
+            return
+        g = u.value[2]
+        m = common.lib_marshal(g, u.value[1])
+        if not m.ok:
+            rec.count('lib_refused')
+            return
+        seen = boundary.props_values(g.properties)
+        try:
+            ref = refcodec.enc_header(g.body_size, seen, u.value[1], legacy)
+        except (refcodec.RefError, struct.error, TypeError):
+            rec.count('ref_refused')
+            return
+        rec.nt(canon.digest_bytes(case['wire']))
+        rec.seen('kinds', 'reencode')
+        r = _same(m.value, ref, 'frame')
+        if r is None:
+            off = _first_diff(m.value, ref)
+            rec.violation('reencoded-header-bytes:' + (
+                'class-weight-size' if off < 19 else 'flags' if off < 21
+                else 'properties'),
+                'a content header decoded from the wire re-encodes '
+                'differently from the reference at offset %d' % off, case,
+                observed=common.hexs(m.value), expected=common.hexs(ref))
+            return
+        rec.count(r)
     elif kind == 'body':
         m = common.lib_marshal(body.ContentBody(case['body']), case['ch'])
         if not m.ok:
@@ -422,7 +459,7 @@ def gates(m, tier):
         out.append('only %d/64 classes compared' % len(m.sets.get('classes',
                                                                   ())))
     for k in ('method', 'header', 'body', 'heartbeat', 'protocol', 'table',
-              'array', 'value'):
+              'array', 'value', 'reencode'):
         if k not in m.sets.get('kinds', ()):
             out.append('kind %s never compared' % k)
     for n in gf.SETTABLE:
